@@ -127,7 +127,7 @@ def addr2line(lib, site):
 # ------------------------------------------------------------------------------------------------ configuration generator
 
 DET_SOURCES = ["%{cmdline}", "%{filename}", "%{uid}", "%{euid}", "%{gid}", "%{egid}", "%{username}", "%{eusername}", "%{group}", "%{egroup}", "%{cwd}",
-               "%{hostname}", "%{domain}", "%{env:HOME}", "%{env:NOSUCH}", "%{env_all}", "%{login}", "%{tty}", "%{tty_uid}", "%{tty_username}", "%{rpname}",
+               "%{hostname}", "%{domain}", "%{env:HOME}", "%{env:NL}", "%{env:NOSUCH}", "%{env_all}", "%{login}", "%{tty}", "%{tty_uid}", "%{tty_username}", "%{rpname}",
                "%{cgroup:name=systemd}", "%{cgroup:1}", "%{cgroup}", "%{systemd_unit_name}", "%{snoopy_version}", "%{snoopy_literal:lit}", "%{snoopy_threads}",
                "%{snoopy_configure_command}", "%{sid}", "%{ipaddr}"]
 VOLATILE_SOURCES = ["%{pid}", "%{ppid}", "%{tid}", "%{tid_kernel}", "%{timestamp}", "%{timestamp_ms}", "%{timestamp_us}", "%{datetime}", "%{datetime:%Y-%m-%d}"]
@@ -220,4 +220,4 @@ def gen_config(rng, volatile=False, force=None):
 
 SINKS = ["sink\tfile\ta\t@D@/a.log", "sink\tfile\tb\t@D@/b.log", "sink\tfile\tu\t@D@/root.log", "sink\tpipe\tso\t1", "sink\tpipe\tse\t2",
          "sink\tdgram\tsock\t@D@/s.sock", "sink\tdevlog\tdevlog\t@D@/devlog.sock"]
-ENVLINE = "env\t" + hexlist([b"HOME=/root", b"PATH=/bin", b"X=from-environ"])
+ENVLINE = "env\t" + hexlist([b"HOME=/root", b"PATH=/bin", b"X=from-environ", b"NL=line one\nline two\r\nline three"])
